@@ -12,7 +12,8 @@ BUF = ["buffers.ReadOnlyFileBasedBuffer.prepare", "buffers.ReadOnlyFileBasedBuff
 def main(argv=None):
     ck = Check("C03", argv, level="proof")
     res = taskworld.run(ck)
-    world.report(ck, res, select=lambda n: any(p in n for p in PATS) and "C08" not in n and "C09" not in n)
+    # a head that can be split by the application is not a well-framed response: the header-validation loop of start_response counts here too
+    world.report(ck, res, select=lambda n: (any(p in n for p in PATS) and "C08" not in n and "C09" not in n) or "<start_response>/loop0/establishes" in n)
     res2 = world.run_functions(ck, ["buffers"], BUF, timeout=20)
     from vlib.modelreplay import make_replayer
     world.report(ck, res2, replayer=make_replayer(ck, ["buffers"]))
